@@ -332,6 +332,12 @@ func C11(ctx *core.Ctx) {
 	c11GeneratorIndexes(ctx, cc)
 	c11ParentDirPaths(ctx, cc)
 	c11InheritedMembers(ctx, cc)
+	ctx.Rule("C11.R18", "an emitted file holds this run's text only: a file opened with O_CREATE for writing is opened with O_TRUNC (a shorter descriptor written over a longer one of an earlier run is not well-formed)", 1)
+	if entry := cc.FnOpt("compiler", "Compile"); entry != nil {
+		truncateOnCreate(ctx, cc, ssax.Cone([]*ssa.Function{entry}, cc.Resolver(), true), entry, "C11.R18")
+	} else {
+		ctx.Unresolved("C11.R18", "compiler.Compile", "entry point not found")
+	}
 	ctx.Rule("C11.R6", "alias agreement: every switch of a generator (or the parser) over the IDL type name handles `byte` and `i8` alike, so that no valid spelling falls into a panicking default", 20)
 	aliasAgreement(ctx, cc, "C11.R6", map[string]bool{"golang": true, "java": true, "dartlang": true, "python": true, "parser": true, "html": true, "json": true, "generator": true}, "valid IDL using that spelling is generated differently or rejected with a generator panic")
 	ctx.Rule("C11.R5", "a visited-guarded search whose hit edge reports a cycle uses path discipline: the element added before the recursive call is removed again on every exit (otherwise a shared sub-structure is reported as a cycle)", 1)
